@@ -116,6 +116,10 @@ func vMatchC32(srcSns, dstSns []*data.Snapshot) map[string][]*data.Snapshot {
 // vDstStateOKC32: `check --read-data` passes and every listed snapshot restores to its model.
 // dstModels knows every snapshot that may legitimately be listed.
 func vDstStateOKC32(dst *vEnv, s *vbe.Store, dstModels map[string]vSnapModelC32, allowed map[string]bool, restore bool) ([]string, error) {
+	return vDstStateOKrdC32(dst, s, dstModels, allowed, restore, restore)
+}
+
+func vDstStateOKrdC32(dst *vEnv, s *vbe.Store, dstModels map[string]vSnapModelC32, allowed map[string]bool, restore, readData bool) ([]string, error) {
 	s.DropLocks()
 	se := dst.OnStore(s)
 	defer se.Release()
@@ -125,8 +129,8 @@ func vDstStateOKC32(dst *vEnv, s *vbe.Store, dstModels map[string]vSnapModelC32,
 			return ids, fmt.Errorf("snapshot %s is neither a pre-existing snapshot nor one of the copies of the completed run", id[:8])
 		}
 	}
-	if out, err := se.Check(true); err != nil {
-		return ids, fmt.Errorf("check --read-data: %v\n%s%s", err, out.Stdout, out.Stderr)
+	if out, err := se.Check(readData); err != nil {
+		return ids, fmt.Errorf("check (read-data=%v): %v\n%s%s", readData, err, out.Stdout, out.Stderr)
 	}
 	if restore {
 		for _, id := range ids {
@@ -156,6 +160,46 @@ func vExcludeC32(tr vTree, p string) vTree {
 		n[q] = &c
 	}
 	return n
+}
+
+// vEvolveTreeC32 applies 1-3 edits (add a file, delete a path, change a file's content) to a copy of prev.
+func vEvolveTreeC32(t *rapid.T, prev vTree) vTree {
+	tr := prev.Clone()
+	n := rapid.IntRange(1, 3).Draw(t, "edits")
+	for i := 0; i < n; i++ {
+		ps := tr.Paths()
+		kind := rapid.SampledFrom([]string{"add", "add", "del", "mod"}).Draw(t, "edit")
+		if len(ps) == 0 {
+			kind = "add"
+		}
+		switch kind {
+		case "add":
+			dirs := []string{""}
+			for _, q := range ps {
+				if tr[q].Kind == 'd' {
+					dirs = append(dirs, q+"/")
+				}
+			}
+			q := dirs[rapid.IntRange(0, len(dirs)-1).Draw(t, "adddir")] + rapid.SampledFrom([]string{"n1", "n2", "n 3", "a", "e.txt"}).Draw(t, "addname")
+			if _, ok := tr[q]; ok {
+				continue
+			}
+			seed := uint64(rapid.IntRange(1, 8).Draw(t, "addpool"))
+			tr[q] = &vNode{Kind: 'f', Seed: seed, Len: 200 + int(seed%7)*311, Mode: 0o644, Mtime: int64(1600000000+rapid.IntRange(0, 1000000).Draw(t, "addmt")) * 1e9}
+		case "del":
+			q := ps[rapid.IntRange(0, len(ps)-1).Draw(t, "delpath")]
+			tr = vExcludeC32(tr, q)
+		case "mod":
+			q := ps[rapid.IntRange(0, len(ps)-1).Draw(t, "modpath")]
+			if tr[q].Kind != 'f' {
+				continue
+			}
+			seed := uint64(rapid.IntRange(1, 8).Draw(t, "modpool"))
+			tr[q].Seed, tr[q].Len, tr[q].Zeros = seed, 200+int(seed%7)*311, false
+			tr[q].Mtime += 1e9
+		}
+	}
+	return tr
 }
 
 func vPolynomialC32(e *vEnv) (string, uint, error) {
@@ -190,7 +234,7 @@ func TestVerifC32Copy(t *testing.T) {
 		}
 		defer dst.Close()
 		dst.gopts.Password = vDstPwC32
-		dst.gopts.Compression = rapid.SampledFrom([]repository.CompressionMode{repository.CompressionAuto, repository.CompressionOff, repository.CompressionMax}).Draw(t, "dstcomp")
+		dst.gopts.Compression = rapid.SampledFrom([]repository.CompressionMode{repository.CompressionAuto, repository.CompressionOff, repository.CompressionFastest}).Draw(t, "dstcomp")
 		sc.Comp = dst.gopts.Compression.String()
 		fail := func(format string, a ...any) {
 			t.Helper()
@@ -204,8 +248,15 @@ func TestVerifC32Copy(t *testing.T) {
 		srcDir := src.Scratch("src-")
 		srcModels := map[string]vSnapModelC32{} // by source snapshot id (also removed ones)
 		sc.Backups = rapid.IntRange(2, 4).Draw(t, "backups")
+		var prevTree vTree
 		for i := 0; i < sc.Backups; i++ {
-			tr := vGenTree(t, vTreeGen{MaxEntries: 10, ContentPool: 8, Symlinks: true})
+			var tr vTree
+			if prevTree == nil || rapid.IntRange(0, 3).Draw(t, "fresh") == 0 {
+				tr = vGenTree(t, vTreeGen{MaxEntries: 10, ContentPool: 8, Symlinks: true})
+			} else {
+				tr = vEvolveTreeC32(t, prevTree) // the usual case: the next backup of a slightly changed directory
+			}
+			prevTree = tr
 			_ = os.RemoveAll(srcDir)
 			_ = os.Mkdir(srcDir, 0o755)
 			if err := tr.Materialize(srcDir); err != nil {
